@@ -336,6 +336,9 @@ class Interp:
         if isinstance(v, SBV):
             if v.bound > self.bv:
                 raise Undecided("inexact bit-vector value used as exact integer")
+            org = getattr(self, "bv_origin", {}).get(id_key(v.t))
+            if org is not None:
+                return org          # the Int term this exact value was made from (0 <= term < 2**W asserted by its maker)
             return z3.BV2Int(v.t)
         raise Undecided("not an integer: %r" % (v,))
 
@@ -401,7 +404,8 @@ class Interp:
             ta, ba = self.bvt(a)
             tb, bb = self.bvt(b)
             if opn == "Add":
-                return self.mkbv(ta + tb, max(ba, bb) + 1)
+                r = self.mkbv(ta + tb, max(ba, bb) + 1)
+                return self._bv_keep_origin(r, a, b, lambda x, y: x + y)
             if opn == "Mult":
                 return self.mkbv(ta * tb, ba + bb)
             if opn == "BitOr":
@@ -440,12 +444,38 @@ class Interp:
             tb, bb = self.bv_exact(b, "-")
             if not self.p.implied(z3.UGE(ta, tb)):
                 raise Undecided("bv: subtraction may go negative")
-            return self.mkbv(ta - tb, ba)
+            return self._bv_keep_origin(self.mkbv(ta - tb, ba), a, b, lambda x, y: x - y)
         raise Undecided("bv: operator %s" % opn)
+
+    def _bv_origin_of(self, v):
+        if isinstance(v, bool):
+            return None
+        if isinstance(v, int):
+            return I(v) if v >= 0 else None
+        if isinstance(v, SBV) and v.bound <= self.bv:
+            return getattr(self, "bv_origin", {}).get(id_key(v.t))
+        return None
+
+    def _bv_keep_origin(self, r, a, b, f):
+        """exact sum / proven-non-negative difference of two values made from Int terms: remember the Int term of the result
+        (it() then avoids the BV2Int(Int2BV(.)) detour)"""
+        if isinstance(r, SBV) and r.bound <= self.bv:
+            oa, ob = self._bv_origin_of(a), self._bv_origin_of(b)
+            if oa is not None and ob is not None:
+                if not hasattr(self, "bv_origin"):
+                    self.bv_origin = {}
+                self.bv_origin[id_key(r.t)] = z3.simplify(f(oa, ob))
+        return r
 
     def bv_compare(self, opn, a, b):
         ta, _ = self.bv_exact(a, "compare")
         tb, _ = self.bv_exact(b, "compare")
+        oa, ob = self._bv_origin_of(a), self._bv_origin_of(b)
+        if oa is not None and ob is not None and (isinstance(a, SBV) and isinstance(b, SBV)):
+            # both exact values were made from Int terms: compare those (same truth value, no Int<->BV detour)
+            g = {"Eq": lambda x, y: x == y, "NotEq": lambda x, y: x != y, "Lt": lambda x, y: x < y, "LtE": lambda x, y: x <= y,
+                 "Gt": lambda x, y: x > y, "GtE": lambda x, y: x >= y}[opn]
+            return self.mkbool(g(oa, ob))
         f = {"Eq": lambda x, y: x == y, "NotEq": lambda x, y: x != y, "Lt": z3.ULT, "LtE": z3.ULE,
              "Gt": z3.UGT, "GtE": z3.UGE}[opn]
         return self.mkbool(f(ta, tb))
@@ -649,7 +679,14 @@ class Interp:
     def int_from_term(self, term, bits):
         """wrap an Int term as a value in the current mode"""
         if self.bv is not None:
-            return self.mkbv(z3.Int2BV(term, self.bv), bits)
+            r = self.mkbv(z3.Int2BV(term, self.bv), bits)
+            if isinstance(r, SBV) and bits <= self.bv:
+                # callers guarantee 0 <= term < 2**bits on this path: it() may hand the Int term back instead of a
+                # BV2Int(Int2BV(.)) detour the solver would have to undo
+                if not hasattr(self, "bv_origin"):
+                    self.bv_origin = {}
+                self.bv_origin[id_key(r.t)] = term
+            return r
         return self.mkint(term)
 
     def total_concrete(self, chunks):
